@@ -56,6 +56,8 @@ def run(chk: Check):
             dict(seq="rw_mh_rw", model_kind="dict", seed=chk.seed + 1),
             dict(seq="rw_mh_rw", model_kind="liesel", seed=chk.seed + 2, custom_idents=False),
             dict(seq="rw_hi_u_ab", model_kind="liesel2", seed=chk.seed + 7),
+            # the interface is made from a model whose automatic updates are switched off (single-key blocks)
+            dict(seq="rw_mh_rw", model_kind="liesel", seed=chk.seed + 12, auto_off=True),
             dict(seq="fdgibbs_rw", model_kind="liesel3", seed=chk.seed + 9),
             # a later kernel reports an error code (NaN ratio outside the support) after an earlier one moved
             dict(seq="rw_x_rw_g", model_kind="dict2", seed=chk.seed + 10, schedule=((1, 6), (4, 8))),
